@@ -43,10 +43,6 @@ def isIntConst : PyExpr → Bool
   | .const ⟨.int, _⟩ => true
   | _ => false
 
-def isSlice : PyExpr → Bool
-  | .slice _ _ _ => true
-  | _ => false
-
 def exprO : Option PyExpr → Bool
   | none => true
   | some x => isExpr x
@@ -120,7 +116,7 @@ def sz : PyExpr → Nat
   | .boolOp _ vs => 1 + szL vs
   | .binOp l _ r => 1 + sz l + sz r
   | .unaryOp _ e => 1 + sz e
-  | .lambda po ar va ko ka body => 1 + szL po + szL ar + szO va + szL ko + szO ka + sz body
+  | .lambda po ar va ko ka body => 9 + szL po + szL ar + szO va + szL ko + szO ka + sz body
   | .ifExp t b o => 1 + sz t + sz b + sz o
   | .dict items => 1 + szL items
   | .listComp elt gens => 1 + sz elt + szL gens
